@@ -173,10 +173,13 @@ def e2e(case):
             parks = list(getattr(obj, "ev_parks", []) or [])
             if not parks or "EV_Interruption" not in obj.history:
                 continue
-            cars = sum(p_.num_cars for p_ in parks)
-            want_int = sum(float(p_.acc_exp_interruptions) * p_.num_cars for p_ in parks) / cars if cars else 0.0
-            nint = sum(p_.acc_num_interruptions for p_ in parks)
-            want_dur = sum(p_.acc_interruption_duration.get_hours() for p_ in parks) / nint if nint else 0.0
+            # EV_Interruption / EV_Duration as the model defines them (C10.evInterruption_append: every park counts), computed by the
+            # model driver from the parks' own accumulators
+            from .common import run_driver
+            from fractions import Fraction as _F
+            op = "ev idx " + ",".join(f"{fr(_F(p_.num_cars))}:{fr(_F(float(p_.acc_exp_interruptions)))}:{fr(_F(p_.acc_num_interruptions))}:{fr(_F(float(p_.acc_interruption_duration.get_hours())))}" for p_ in parks)
+            mo = run_driver([op])[0].split(" ")
+            want_int, want_dur = float(_F(mo[0])), float(_F(mo[1]))
             want_idx = sum(p_.get_ev_index() for p_ in parks)
             for name, want in (("EV_Interruption", want_int), ("EV_Duration", want_dur), ("EV_Index", want_idx)):
                 got = obj.history[name][tl]
